@@ -289,9 +289,14 @@ class SqueethKit:
         cls = rng.choice(ARG_CLASSES)
         vaults = list(m.vault.keys())
         free_pos = [k for k, p in um.positions.items() if not p.transferred and p.liquidity > 0]
+        lent_pos = [k for k, p in um.positions.items() if p.transferred]
+        if lent_pos and rng.random() < 0.3:
+            # hostile: a position that already backs a vault is offered as collateral once more (must be refused)
+            free_pos = lent_pos
         choice = rng.choice(
             ["open"] * 3 + ["open_rate"] + (["deposit", "mint_more", "burn_withdraw", "burn_withdraw", "withdraw_only"] if vaults else [])
-            + (["deposit_lp"] if vaults and free_pos else []) + (["withdraw_lp"] if vaults else []) + ["buy_sq", "sell_sq", "unknown_vault"]
+            + (["deposit_lp"] * (3 if free_pos is lent_pos else 1) if vaults and free_pos else []) + (["withdraw_lp"] if vaults else [])
+            + ["buy_sq", "sell_sq", "unknown_vault"]
         )
         if choice == "open":
             eth = amount_of(rng, weth_b, cls, 18)
@@ -323,7 +328,8 @@ class SqueethKit:
         if choice == "deposit_lp":
             vk = rng.choice(vaults)
             pos = rng.choice(free_pos)
-            return Op(self.mtype, "deposit_uni_position", "lp", lambda: m.deposit_uni_position(vk, pos), kind="revalue")
+            return Op(self.mtype, "deposit_uni_position", "lp-already-lent" if free_pos is lent_pos else "lp",
+                      lambda: m.deposit_uni_position(vk, pos), kind="revalue")
         if choice == "withdraw_lp":
             vk = rng.choice(vaults)
             pos = m.vault[vk].uni_nft_id
